@@ -177,6 +177,23 @@ def regen(ctx=None):
     return msgs
 
 
+def write_root():
+    """lean/GoluaVerif.lean imports every module of the library (so `lake build GoluaVerif` checks all of it)."""
+    mods = []
+    base = os.path.join(LEAN, "GoluaVerif")
+    for d, _, fs in os.walk(base):
+        if os.path.basename(d) == "AuditRun":
+            continue
+        for f in fs:
+            if f.endswith(".lean"):
+                rel = os.path.relpath(os.path.join(d, f), LEAN)[:-5]
+                mods.append(rel.replace(os.sep, "."))
+    txt = "".join("import %s\n" % m for m in sorted(mods))
+    path = os.path.join(LEAN, "GoluaVerif.lean")
+    if not os.path.exists(path) or open(path).read() != txt:
+        open(path, "w").write(txt)
+
+
 def lake_build(targets, timeout=3000):
     with Lock("lake"):
         rc, o = sh(["lake", "build"] + list(targets), cwd=LEAN, timeout=timeout)
